@@ -384,3 +384,57 @@ def precomputed_for(rng, pre, n):
     if pre == "metric":
         return sym_matrix(rng, n, ["dist", "dist_nonmetric"][int(rng.integers(0, 2))])
     return None
+
+
+# ---------------------------------------------------------------------------
+# what objective / affinity an estimator's parameters describe (written from the documentation)
+# ---------------------------------------------------------------------------
+def expected_objective(name, params):
+    """(distance, ovo, affinity-spec) the documentation promises for estimator `name` with `params`.
+    affinity-spec: None | {"type": "kernel"|"metric", "name": str|None, "params": dict, "callable": str|None,
+    "precomputed": bool}"""
+    from .refs.gemini import REGISTRY
+
+    def kern(k, kp):
+        if isinstance(k, dict):
+            return {"type": "kernel", "name": None, "params": {}, "callable": k["callable"], "precomputed": False}
+        return {"type": "kernel", "name": k, "params": dict(kp or {}), "callable": None, "precomputed": k == "precomputed"}
+
+    def metr(m, mp):
+        return {"type": "metric", "name": m, "params": dict(mp or {}), "callable": None, "precomputed": m == "precomputed"}
+
+    if name in ("RIM", "KernelRIM", "SparseLinearMI"):
+        return "kl", False, None
+    if name in MMD_VARIANTS:
+        return "mmd", bool(params.get("ovo", False)), kern(params.get("kernel", "linear"), params.get("kernel_params"))
+    if name in WASS_VARIANTS:
+        return "wasserstein", bool(params.get("ovo", False)), metr(params.get("metric", "euclidean"), params.get("metric_params"))
+    g = params.get("gemini", "wasserstein_ova" if name == "Douglas" else "mmd_ova")
+    if g is None:
+        g = "mmd_ova"
+    if isinstance(g, str):
+        dist, ovo = REGISTRY[g]
+        aff = kern("linear", None) if dist == "mmd" else (metr("euclidean", None) if dist == "wasserstein" else None)
+        return dist, ovo, aff
+    from .refs.gemini import CLASS_DISTANCE
+    dist = CLASS_DISTANCE[g["cls"]]
+    ovo = bool(g.get("ovo", False)) if g["cls"] != "MI" else False
+    if dist == "mmd":
+        return dist, ovo, kern(g.get("kernel", "linear"), g.get("params"))
+    if dist == "wasserstein":
+        return dist, ovo, metr(g.get("metric", "euclidean"), g.get("params"))
+    return dist, ovo, None
+
+
+def expected_affinity(spec, X, y=None):
+    """Evaluate an affinity-spec with scikit-learn directly (never through gemclus)."""
+    from sklearn.metrics import pairwise_kernels, pairwise_distances
+    if spec is None:
+        return None
+    if spec["precomputed"]:
+        return y
+    if spec["callable"]:
+        return CALLABLES[spec["callable"]](X)
+    if spec["type"] == "kernel":
+        return pairwise_kernels(X, metric=spec["name"], **spec["params"])
+    return pairwise_distances(X, metric=spec["name"], **spec["params"])
